@@ -1,7 +1,7 @@
 """C20 - notify only on change or after repeat_interval; repeats arrive on time."""
 import json
 from lib import vlib
-from checks import e2ecommon
+from checks import e2ecommon, c20p
 
 PID = "C20"
 
@@ -15,7 +15,13 @@ def run(tier, v):
     cov = e2ecommon.coverage(e, "one case = one scenario run; non-trivial = number of delivered notifications each judged by Justified(prev, cur) "
                                 "(new firing alert / new resolved alert with send_resolved / repeat_interval elapsed / cycle break)", ok_attempts)
     cov["drift"] = drift
-    return "model_checking", cov, e2ecommon.ASSUMPTIONS
+    # payload half: template data, webhook max_alerts, truncation (Delivery.tla)
+    pay = c20p.run_payload(PID, tier, v)
+    cov["payload"] = pay
+    for k in ("states", "transitions", "evaluations"):
+        if isinstance(pay.get(k), int):
+            cov[k] = cov.get(k, 0) + pay[k]
+    return "model_checking", cov, e2ecommon.ASSUMPTIONS + ["payload half: non-empty label values, valid UTF-8 inputs, limits >= 0; other integrations' templates are not replayed"]
 
 
 def replay(path, v):
